@@ -932,20 +932,25 @@ class UTMITranslator(Elaboratable):
 
 
         # RxActive handler:
-        # A transmission starts when DIR goes high with NXT, or when an RxEvent indicates
-        # a switch from RxActive = 0 to RxActive = 1. A transmission stops when DIR drops low,
-        # or when the RxEvent RxActive bit drops from 1 to 0, or an error occurs.A
+        # A transmission starts when DIR goes high with NXT, or when an RxCmd reports RxActive = 1.
+        # A transmission stops when DIR drops low, or when an RxCmd reports RxActive = 0.
+        #
+        # We follow the RxActive bit of the RxCmd on the bus directly (rather than the decoder's
+        # registered rx_start/rx_stop edge strobes), so that RxActive is already up for a data byte
+        # that immediately follows the RxCmd, and so that it never depends on a stale RxCmd.
         past_dir        = Signal.like(self.ulpi.dir.i)
         m.d.usb        += past_dir.eq(self.ulpi.dir.i)
         dir_rising_edge = ~past_dir & self.ulpi.dir.i
         dir_based_start = dir_rising_edge & self.ulpi.nxt.i
+        rxcmd_present   = past_dir & self.ulpi.dir.i & ~self.ulpi.nxt.i & ~register_window.read_busy
 
-
-        with m.If(~self.ulpi.dir.i | rxevent_decoder.rx_stop):
-            # TODO: this should probably also trigger if RxError
+        with m.If(~self.ulpi.dir.i):
             m.d.usb += self.rx_active.eq(0)
-        with m.Elif(dir_based_start | rxevent_decoder.rx_start):
+        with m.Elif(dir_based_start):
             m.d.usb += self.rx_active.eq(1)
+        with m.Elif(rxcmd_present):
+            # TODO: this should probably also drop RxActive on RxError
+            m.d.usb += self.rx_active.eq(self.ulpi.data.i[4])
 
 
         # Data-out: we'll connect this almost direct through from our ULPI
